@@ -13,6 +13,8 @@ from vt import terms as tm, pyfront as P
 from vt.terms import INT, BOOL, REAL
 
 LEVEL = 'proof'
+from vt import oblig as _oblig
+_oblig.OPTIONAL_CLAUSES['C04'] = ('augmented_lagrange_solve#1/',)
 TRUSTED = ['binary64 treated as real arithmetic',
            'CPython executes the re-executed source (LoopCut, return / call-site tagging are the only transformations; print dropped)',
            'pointwise arrays: numpy elementwise operations act index by index; np.any(m) is true when m holds at some index (the generic index included)',
@@ -284,6 +286,15 @@ class _AtSet:
     def __init__(self, a, m):
         self.a, self.m = a, m
 
+    def multiply(self, v):
+        return self.set(Masked(self.a.t, self.m.t, self.a.n) * v) if isinstance(self.m, PW) else self._unsupported()
+
+    def add(self, v):
+        return self.set(Masked(self.a.t, self.m.t, self.a.n) + v) if isinstance(self.m, PW) else self._unsupported()
+
+    def _unsupported(self):
+        raise P.Undecided('at[...] update with a non-mask index')
+
     def set(self, v):
         if isinstance(self.m, PW) and self.m.t.sort == BOOL:
             if isinstance(v, Masked):
@@ -419,9 +430,9 @@ def _al_settings(ns, **kw):
     return ns['Settings'](**base)
 
 
-def _load(cuts=(), tag=(), sites=()):
+def _load(cuts=(), tag=(), sites=(), optional_cuts=()):
     P.install_sksparse_stub()
-    ns, vc, info = P.load_module(FILE, cuts=set(cuts), tag=set(tag), sites=dict(sites))
+    ns, vc, info = P.load_module(FILE, cuts=set(cuts), tag=set(tag), sites=dict(sites), optional_cuts=set(optional_cuts))
     ns['np'] = NpPW()
     ns['norm'] = ns['np'].norm
     ns['len'] = _len
@@ -472,7 +483,8 @@ Q = 'augmented_lagrange_solve'
 def _al_driver(S, cfg):
     tag = ','.join('%s=%s' % kv for kv in sorted(cfg.items())) or 'default'
     name = 'AlSolver.%s[%s]' % (Q, tag)
-    ns, vc, info = _load(cuts={(Q, 0), (Q, 1)}, tag={Q}, sites={Q: ['callback']})
+    # the line-search loop is cut where it stands in this function; moved elsewhere (its range is a literal) it is simply executed
+    ns, vc, info = _load(cuts={(Q, 0)}, optional_cuts={(Q, 1)}, tag={Q}, sites={Q: ['callback']})
     st = _al_settings(ns, **{k: v for k, v in cfg.items() if k != 'updatePrecond'})
     lam0, kap0 = PW(tm.var('lam0_i')), PW(tm.var('kappa0_i'))
     al = ALProxy(lam0, kap0)
